@@ -26,7 +26,7 @@ def demo(tree, script):
     return sh(f"/venv/bin/python {script}", cwd=tree, env=env, timeout=600)
 
 
-def confirm(outdir, prop):
+def confirm(outdir, prop, offset=0):
     for i in range(1, 10):
         diff = os.path.join(outdir, f"m{i}.diff")
         dm = os.path.join(outdir, f"m{i}_demo.py")
@@ -39,11 +39,11 @@ def confirm(outdir, prop):
             rc1, out1 = demo(d, dm)
             rcb, outb = sh(f"python3 {VERIF}/tools/baseline.py {d}")
             ok = rc0 == 0 and rca == 0 and rc1 != 0 and rcb == 0
-            print(f"{prop}-m{i}: demo clean rc={rc0}, apply rc={rca}, demo changed rc={rc1}, baseline rc={rcb} -> {'CONFIRMED' if ok else 'REJECTED'}")
+            print(f"{prop}-m{i + offset}: demo clean rc={rc0}, apply rc={rca}, demo changed rc={rc1}, baseline rc={rcb} -> {'CONFIRMED' if ok else 'REJECTED'}")
             if not ok:
                 print("   ", (out0 if rc0 else outa if rca else out1 if rc1 == 0 else outb)[-400:])
                 continue
-            dst = os.path.join(VERIF, "seeded", f"{prop}-m{i}")
+            dst = os.path.join(VERIF, "seeded", f"{prop}-m{i + offset}")
             os.makedirs(dst, exist_ok=True)
             shutil.copy(diff, os.path.join(dst, "patch.diff"))
             shutil.copy(dm, os.path.join(dst, "demo.py"))
@@ -93,7 +93,7 @@ def run(seed_id, props):
 
 if __name__ == "__main__":
     if sys.argv[1] == "confirm":
-        confirm(sys.argv[2], sys.argv[3])
+        confirm(sys.argv[2], sys.argv[3], int(sys.argv[4]) if len(sys.argv) > 4 else 0)
     elif sys.argv[1] == "run":
         ids = sorted(os.listdir(os.path.join(VERIF, "seeded"))) if sys.argv[2] == "all" else [sys.argv[2]]
         for i in ids:
